@@ -730,9 +730,22 @@ fn e2e_case(run: &mut Run, rng: &mut Rng, v6: bool, cell: &Cell, privileged: boo
             let n = *rng.pick(&lens);
             let mut d = b.datagram.clone();
             if foreign {
-                // another destination
-                let pos = if v6 { 24 + rng.below(16) as usize } else { 16 + rng.below(4) as usize };
-                d[pos] ^= 1 << rng.below(8);
+                // a datagram this tracer did not send: another destination, exactly one fixed port
+                // changed (the other one, for FixedBoth, still matches), or the Dublin/IPv6 marker gone
+                let ih = if v6 { 40 } else { 20 };
+                let mut kinds: Vec<u8> = vec![0];
+                match cell.pd { Pd::Src(_) => kinds.push(1), Pd::Dest(_) => kinds.push(2), Pd::Both(..) => { kinds.push(1); kinds.push(2); kinds.push(1); kinds.push(2); } Pd::None => {} }
+                if cell.strat == 'd' && v6 && cell.proto == 'u' { kinds.push(3); }
+                match *rng.pick(&kinds) {
+                    0 => {
+                        let pos = if v6 { 24 + rng.below(16) as usize } else { 16 + rng.below(4) as usize };
+                        d[pos] ^= 1 << rng.below(8);
+                        run.count("e2e-foreign:destination");
+                    }
+                    1 => { d[ih + rng.below(2) as usize] ^= 1 << rng.below(8); run.count("e2e-foreign:src-port"); }
+                    2 => { d[ih + 2 + rng.below(2) as usize] ^= 1 << rng.below(8); run.count("e2e-foreign:dest-port"); }
+                    _ => { if d.len() >= ih + 14 { d[ih + 8 + rng.below(6) as usize] ^= 0x20; } else { d[24] ^= 1; } run.count("e2e-foreign:no-marker"); }
+                }
             }
             let q = quote(&cfg, &d, n, rng);
             let (e, _) = ext_structure(rng);
